@@ -1017,12 +1017,42 @@ def coerce_to_number(value, convert_all=False):
         return value
 
 
+def number_to_string(value):
+    """A number as excel shows it in a text: 15 significant digits, with an
+    exponent ('1E+21') only if it would otherwise need more than 20 characters
+    """
+    try:
+        mantissa, exponent = f'{abs(value):.14E}'.split('E')
+    except (OverflowError, ValueError):
+        # not a number excel could hold
+        return str(value)
+
+    sign = '-' if value < 0 else ''
+    digits = mantissa.replace('.', '').rstrip('0') or '0'
+    exponent = int(exponent)
+
+    if exponent > 19 or len(digits) - exponent > 19:
+        if len(digits) > 1:
+            digits = f'{digits[0]}.{digits[1:]}'
+        return f'{sign}{digits}E{exponent:+03d}'
+
+    if exponent < 0:
+        return f"{sign}0.{'0' * (-exponent - 1)}{digits}"
+
+    whole = digits[:exponent + 1].ljust(exponent + 1, '0')
+    fraction = digits[exponent + 1:]
+    return f'{sign}{whole}.{fraction}' if fraction else f'{sign}{whole}'
+
+
 def coerce_to_string(value):
     if isinstance(value, bool):
         return str(value).upper()
 
     elif value is None:
         return ''
+
+    elif isinstance(value, (int, float)):
+        return number_to_string(value)
 
     elif not isinstance(value, str):
         return str(coerce_to_number(value))
@@ -1290,21 +1320,13 @@ def build_operator_operand_fixup(capture_error_state):
 
             if left_op in (None, EMPTY):
                 left_op = ''
-            elif isinstance(left_op, bool):
-                left_op = str(left_op).upper()
-            elif isinstance(left_op, float) or isinstance(left_op, int):
-                left_op = str(coerce_to_number(left_op))
             else:
-                left_op = str(left_op)
+                left_op = coerce_to_string(left_op)
 
             if right_op in (None, EMPTY):
                 right_op = ''
-            elif isinstance(right_op, bool):
-                right_op = str(right_op).upper()
-            elif isinstance(right_op, float) or isinstance(right_op, int):
-                right_op = str(coerce_to_number(right_op))
             else:
-                right_op = str(right_op)
+                right_op = coerce_to_string(right_op)
 
         else:
             left_op = operand_to_number(left_op)
